@@ -592,7 +592,7 @@ class Ev:
 
     def _lin_name(self, l: Lin) -> str:
         raw = l.raw.name if isinstance(l.raw, Sym) else repr(l.raw)
-        return f"int({raw}*{l.mul}+{l.add})"
+        return f"lin:{raw}*{l.mul}+{l.add}"
 
     def compare(self, e: ast.Compare, env, module):
         if len(e.ops) != 1:
@@ -925,6 +925,8 @@ class Ev:
         return {"returns": returns, "fall": pc, "env": env}
 
     def effect(self, e, env, module, pc):
+        if isinstance(e, ast.Call) and isinstance(e.func, ast.Attribute) and e.func.attr == "pack_into":
+            self.call(e, env, module)
         return None
 
     def bind(self, target, v, env):
